@@ -158,6 +158,7 @@ struct World {
     /// a payload of the case is written as a `z` token (a write of megabytes): reads of the completion
     /// phase are large, the case is not projected onto the link model
     huge: bool,
+    oracle_only: bool, // the case uses stimuli the model does not have (scheduling of application tasks): monitors only
     /// the frame-level writer was used (`wpush`)
     raw_push: bool,
     /// the completion phase ended because nothing moved any more (not because its rounds ran out)
@@ -281,6 +282,7 @@ impl World {
             double_reply: false,
             mon: std::collections::BTreeMap::new(),
             huge: false,
+            oracle_only: false,
             raw_push: false,
             quiesced: false,
             probe: true,
@@ -1864,6 +1866,58 @@ fn large_window_case(r: &mut Rng, focus: Focus) -> World {
     w
 }
 
+/// C15 / C07: the application task that awaits a request is scheduled late. The answer to bind request 1
+/// is processed by the connection task while the future of request 1 is not polled; the application
+/// starts request 2, whose flow id is the one request 1 has just released; only then request 1's future
+/// runs to completion. Both requests resolve with their own answers. (Monitors only: the model has no
+/// scheduler for application tasks.)
+fn late_future_case(r: &mut Rng, focus: Focus) -> World {
+    let mut oa = gen_opts(r, focus);
+    let mut ob = gen_opts(r, focus);
+    oa.bind_cap = oa.bind_cap.max(2);
+    ob.bind_cap = ob.bind_cap.max(2);
+    let mut w = World::new([oa, ob]);
+    w.oracle_only = true;
+    let x = r.range(1, 0xffff_fffe);
+    let same_id = r.chance(3, 4);
+    let e = r.below(2) as usize;
+    let pe = 1 - e;
+    for k in 0..2 {
+        let mut t = vec![s("rng")];
+        if k == e { t.push(s(x)); t.push(s(if same_id { x } else { r.range(1, 0xffff_fffe) })); }
+        t.extend((0..6).map(|_| s(r.range(1, 0xffff_ffff))));
+        w.stim(k, &t);
+        w.view[k].rng_left = 8;
+    }
+    let answer = |w: &mut World, r: &mut Rng, accept: bool| {
+        while w.deliver_next(pe) {}
+        let out = w.stim(pe, &[s("bindnext")]);
+        if out.starts_with("bindreq") {
+            let k = w.view[pe].held.len() - 1;
+            if accept || r.chance(1, 2) { w.answered.insert((pe, k)); w.stim(pe, &[s("bindreply"), s(k), s(u64::from(accept))]); }
+            if !accept || r.chance(1, 2) { w.stim(pe, &[s("binddrop"), s(k)]); }
+        }
+    };
+    let req1 = w.next_req; w.next_req += 1;
+    w.stim(e, &[s("bindreq"), s(req1), s(if r.chance(1, 2) { 1 } else { 3 }), hexd(&r.bytes(3)), s(2000 + req1)]);
+    let acc1 = r.chance(2, 3);
+    answer(&mut w, r, acc1);
+    // the answer reaches the requester's connection task; the task awaiting request 1 is not scheduled yet
+    w.stim(e, &[s("holdreq"), s(req1)]);
+    while w.deliver_next(e) {}
+    let req2 = w.next_req; w.next_req += 1;
+    w.stim(e, &[s("bindreq"), s(req2), s(if r.chance(1, 2) { 1 } else { 3 }), hexd(&r.bytes(2)), s(2000 + req2)]);
+    let late = r.chance(1, 2);
+    if !late { w.stim(e, &[s("releasereq"), s(req1)]); }
+    let acc2 = r.chance(2, 3);
+    answer(&mut w, r, acc2);
+    if late { w.stim(e, &[s("releasereq"), s(req1)]); }
+    for _ in 0..3 { while w.deliver_next(e) {} while w.deliver_next(pe) {} }
+    fair_completion(&mut w, 20);
+    final_checks(&mut w);
+    w
+}
+
 fn half_close_reply_case(r: &mut Rng, focus: Focus) -> World {
     let mut oa = gen_opts(r, focus);
     let ob = gen_opts(r, focus);
@@ -2484,7 +2538,7 @@ fn attribute(line: &str) -> Vec<&'static str> {
         "dropstream" | "dropmany" => vec!["C06"],
         "batch" => vec!["C02", "C03", "C04", "C05", "C06", "C07", "C08", "C10", "C11", "C12", "C15"],
         "dgsend" | "dgrecv" => vec!["C11"],
-        "bindreq" | "bindnext" | "bindreply" | "binddrop" => vec!["C15"],
+        "bindreq" | "bindnext" | "bindreply" | "binddrop" | "holdreq" | "releasereq" => vec!["C15"],
         "dropmux" | "sinkblock" | "sinkunblock" | "sinkgrant" => vec!["C08", "C02"],
         "deliver" => match t.get(2).copied() {
             Some("many") => vec!["C02", "C03", "C04", "C05", "C06", "C07", "C08", "C10", "C11", "C12", "C15"],
@@ -2605,7 +2659,8 @@ fn main() {
             let desc = replay_lines(&l).and_then(|w2| w2.fails.iter().find(|g| mine(&g.0) && g.1 == key).map(|g| g.2.clone())).unwrap_or_else(|| f.2.clone());
             rep.fail(FailKind::Impl, &format!("{}:{}", focus.name(), key), &desc, json!({"lines": l}));
         }
-        if let Some(d) = drv.as_mut() {
+        if w.oracle_only { rep.count("case/oracle-only"); }
+        if let Some(d) = drv.as_mut().filter(|_| !w.oracle_only) {
             rep.model_compared += 1;
             let mut tags = std::collections::BTreeMap::new();
             let diff = model_diff_tags(d, &w, &mut Some(&mut tags));
@@ -2670,6 +2725,18 @@ fn main() {
             let mut r = base.fork(k);
             match catch(|| half_close_reply_case(&mut r, focus)) {
                 Ok(w) => handle_world(w, "half-close-reply", &mut rep, &mut drv),
+                Err(p) => rep.fail(FailKind::Impl, "harness-panic", &format!("panic outside a stimulus: {p}"), json!({})),
+            }
+        }
+    }
+    // application tasks scheduled late: a request's future polled only after the next request has started
+    if matches!(focus, Focus::C15) {
+        let n = match args.tier { Tier::Quick => 40, Tier::Thorough => 800 };
+        let base = Rng::new(args.seed ^ fnv(focus.name().as_bytes()) ^ 0x6c61_7465);
+        for k in 0..n {
+            let mut r = base.fork(k);
+            match catch(|| late_future_case(&mut r, focus)) {
+                Ok(w) => handle_world(w, "late-future", &mut rep, &mut drv),
                 Err(p) => rep.fail(FailKind::Impl, "harness-panic", &format!("panic outside a stimulus: {p}"), json!({})),
             }
         }
